@@ -5,7 +5,7 @@ EXTRA_MODULES = kbridge.MODULES['C02']      # Props/KernelGen02: Event.succeed /
 prepare = kbridge.prepare_for('C02')    # regenerates Generated/KernelEvent02.lean only
 ASSUMPTIONS = ['succeed()/fail() applied to a Process or Condition object is outside the quantifier (the model reproduces the kernel crash it causes)',
                'CPython generator send/throw semantics; the exception copy is type(v)(*v.args)']
-SPEC = [(6, 'outcome'), (2, 'time'), (1, 'cond'), (1, 'intr'), (1, 'victim'), (2, 'plan:outcome'), (1, 'untilfail'), (2, 'decided')]
+SPEC = [(6, 'outcome'), (2, 'time'), (1, 'cond'), (1, 'intr'), (1, 'victim'), (2, 'plan:outcome'), (1, 'untilfail'), (2, 'decided'), (1, 'launcher'), (1, 'plan:launcher')]
 def run(ctx):
     res = kprops.run_kernel(ctx, 'C02', SPEC, 2000, 60000, attribute=kprops.stop_is_not_the_cause, oracles=[kprops.oracle_time_monotone, koracle.oracle_c02, koracle.oracle_until_failed])
     res['coverage'].update(kbridge.coverage('C02'))
